@@ -5,6 +5,11 @@ package limiter
 
 // Machine-checked contracts for the limiters (comment-only file).
 //
+// The shared schedule l.next is touched only through sync/atomic, and no store publishes a
+// value computed from an earlier read (lost update): updates go through CompareAndSwap.
+//@ rule atomic_only RateLimiter.next except=NewRateLimiter prop=C17
+//@ rule atomic_rmw RateLimiter.next prop=C17
+
 // Permit accounting of the concurrent limiter: the buffered channel l.tasks
 // is the semaphore. ghost.chansent[ch] / ghost.chanrecv[ch] count completed
 // sends and receives on ch (maintained by the generator at every send,
@@ -58,7 +63,9 @@ package limiter
 
 // Rate limiter. Floats are treated as reals (listed in the evidence).
 // ghost.clock after the call is the instant `now` read by time.Now().
-// With last = l.next on entry and gap = tokens*interval:
+// The update of l.next is a compare-and-swap loop: `last` is the value of
+// l.next the successful iteration read (under interference from concurrent
+// callers it is whatever value the swap replaced). With gap = tokens*interval:
 //   next' = max(last + gap, now - maxPermits*interval)   (up to int64 truncation, < 1ns)
 //   the caller waits until max(now, last); it is rejected with ErrTimeout
 //   exactly when timeout > 0 and last - now > timeout.
@@ -68,9 +75,9 @@ package limiter
 //@   nopanic
 //@   modifies l.next, ghost.clock, ghost.chanrecv[*], ghost.chanlen[*]
 //@   requires l != nil && l.interval > 0.0 && tokens >= 0 && l.maxPermits >= 0.0
-//@   let last = l.next
-//@   ensures [timeout_only_when_wait_exceeds] err != nil ==>
-//@       err == core.ErrTimeout && l.timeout > 0 && last - ghost.clock > l.timeout
+//@   loop 1 invariant ghost.clock >= old(ghost.clock)
+//@   ensures [failure_is_timeout] err != nil ==> err == core.ErrTimeout && l.timeout > 0
+//@   ensures [timeout_only_when_wait_exceeds] err != nil ==> last - ghost.clock > l.timeout
 //@   ensures [timeout_whenever_wait_exceeds] l.timeout > 0 && last - ghost.clock > l.timeout ==> err == core.ErrTimeout
 //@   ensures [tokens_consumed_unclamped] to_real(ghost.clock - last) / l.interval - to_real(tokens) <= l.maxPermits ==>
 //@       to_real(l.next) - (to_real(last) + to_real(tokens) * l.interval) < 1.0 &&
